@@ -461,6 +461,6 @@ MANIFEST_INFO = {
     "engine": "A",
     "design_ref": "DESIGN.md section 5, C01",
     "technique": "stateless DFS (deviation-bounded, exhaustive) over stage-behaviour choice points of generated TestCase programs executed by the real RunTest against seven result flavours; lifecycle reference model as oracle",
-    "level_text": "Every program with at most N deviating stages (N=3 quick; all stages thorough) over setUp/test/tearDown/0..3 cleanups x 15 behaviours (incl. returning a value, a non-str skip reason through skipTest() and through the skip exception itself, an empty and a nested MultipleExceptions, tearDown raising before its up-call) x 8 result flavours (one of them falsy) x expectThat/force_failure/skip and expected-failure decorators (with, without, with a non-str, None or lone-surrogate reason; also combined with a class-level force_failure) and run_test_with naming the default runner is executed on the real code and its result log, propagation and stage order are compared with a reference lifecycle model. Exhaustive within those bounds, which contain every pair and triple of (kind, stage) the statement quantifies over.",
+    "level_text": "Every program with at most N deviating stages (N=3 quick; all stages thorough) over setUp/test/tearDown/0..3 cleanups x 15 behaviours (incl. returning a value, a non-str skip reason through skipTest() and through the skip exception itself, an empty and a nested MultipleExceptions, tearDown raising before its up-call) x 8 result flavours (one of them falsy) x expectThat/force_failure/skip and expected-failure decorators (with, without, with a non-str, None or lone-surrogate reason; also combined with a class-level force_failure) and run_test_with naming the default runner is executed on the real code and its result log, propagation and stage order are compared with a reference lifecycle model. Exhaustive within those bounds, which contain every pair and triple of (kind, stage) the statement quantifies over. In addition, for every result flavour, a test that runs another TestCase against the same result from its body, its tearDown or a cleanup (3 x 2 x 3 shapes): both brackets intact.",
     "level_note": "Trusts the harness recorders and the lifecycle model in vt/proggen.py; scope is finite (<=3 cleanups, one test method); programs always up-call.",
 }
